@@ -202,6 +202,45 @@ pub mod validators;
 #[doc(hidden)]
 pub mod registry;
 
+/// Work counters read by the verification harness in /verif (property C11). Compiled only with
+/// `--cfg async_graphql_verif`; without it no code is added anywhere.
+#[cfg(async_graphql_verif)]
+#[doc(hidden)]
+pub mod verif_hooks {
+    use std::sync::atomic::{AtomicU64, Ordering};
+
+    /// Number of counters returned by [`take`].
+    pub const N: usize = 5;
+    /// Calls of `visit_selection` (validation/visitor.rs), all passes.
+    pub static VISIT_SELECTION: AtomicU64 = AtomicU64::new(0);
+    /// Calls of `visit_field` (validation/visitor.rs), all passes.
+    pub static VISIT_FIELD: AtomicU64 = AtomicU64::new(0);
+    /// Selection sets entered by `check_recursive_depth` (schema.rs).
+    pub static RECURSIVE_DEPTH: AtomicU64 = AtomicU64::new(0);
+    /// Selection sets entered by `check_max_directives` (schema.rs).
+    pub static MAX_DIRECTIVES: AtomicU64 = AtomicU64::new(0);
+    /// Calls of `FindConflicts::find` (validation/rules/overlapping_fields_can_be_merged.rs).
+    pub static FIND_CONFLICTS: AtomicU64 = AtomicU64::new(0);
+
+    /// Adds one unit of work to a counter.
+    #[inline]
+    pub fn bump(counter: &AtomicU64) {
+        counter.fetch_add(1, Ordering::Relaxed);
+    }
+
+    /// Reads and resets all counters:
+    /// `[visit_selection, visit_field, recursive_depth, max_directives, find_conflicts]`.
+    pub fn take() -> [u64; N] {
+        [
+            VISIT_SELECTION.swap(0, Ordering::Relaxed),
+            VISIT_FIELD.swap(0, Ordering::Relaxed),
+            RECURSIVE_DEPTH.swap(0, Ordering::Relaxed),
+            MAX_DIRECTIVES.swap(0, Ordering::Relaxed),
+            FIND_CONFLICTS.swap(0, Ordering::Relaxed),
+        ]
+    }
+}
+
 pub use async_graphql_parser as parser;
 pub use async_graphql_value::{
     ConstValue as Value, DeserializerError, Extensions, Name, Number, SerializerError, Variables,
